@@ -413,6 +413,8 @@ func c08(c *Ctx) (*report.Result, error) {
 	checkShardIDRoles(c, res, "O8.17", func(kind, callee string) bool {
 		return kind == "call" && callee != "DeliverAckToShardOwner" && callee != "GetRemoteSendChan"
 	})
+	res.RuleDoc["O8.18"] = "nothing is sent to a dead incarnation: the channel operand of every send that can hold a result of GetRemoteSendChan / GetLocalAckChan is the result of the lookup made for this very hand-over (no loop-carried variable, no variable assigned more than once, no lookup hoisted out of the loop) - the registry entry is replaced when a newer incarnation registers while the older channel stays open and buffered until its owner has wound down"
+	checkRegistryChanFresh(c, res, "O8.18", 4)
 	res.RuleDoc["O8.11"] = "no swallowed error in the files the mechanism lives in: no function returns a nil error on a path on which an error obtained from a call is known to be non-nil (io.EOF from a stream Recv, the normal end of a receive loop, is the one accepted idiom)"
 	checkNoSwallowedErrors(c, res, "O8.11", []string{"proxy/proxy_streams.go", "proxy/intra_proxy_router.go", "proxy/shard_manager.go"})
 	return res, nil
